@@ -79,26 +79,54 @@ func ChanMake(v ssa.Value) *ssa.MakeChan {
 func sliceElemMake(slice ssa.Value) *ssa.MakeChan {
 	slice = Strip(slice)
 	var mk *ssa.MakeChan
-	refs := slice.Referrers()
-	if refs == nil {
-		return nil
-	}
-	for _, in := range *refs {
-		if ia, ok := in.(*ssa.IndexAddr); ok && ia.X == slice {
-			if r := ia.Referrers(); r != nil {
-				for _, u := range *r {
-					if st, ok := u.(*ssa.Store); ok && st.Addr == ia {
-						m, ok := Strip(st.Val).(*ssa.MakeChan)
-						if !ok || (mk != nil && mk != m) {
-							return nil
+	for _, al := range SliceAliases(slice) {
+		refs := al.Referrers()
+		if refs == nil {
+			continue
+		}
+		for _, in := range *refs {
+			if ia, ok := in.(*ssa.IndexAddr); ok && ia.X == al {
+				if r := ia.Referrers(); r != nil {
+					for _, u := range *r {
+						if st, ok := u.(*ssa.Store); ok && st.Addr == ia {
+							m, ok := Strip(st.Val).(*ssa.MakeChan)
+							if !ok || (mk != nil && mk != m) {
+								return nil
+							}
+							mk = m
 						}
-						mk = m
 					}
 				}
 			}
 		}
 	}
 	return mk
+}
+
+// SliceAliases: the slice value itself plus every load of a single-store local
+// variable (possibly captured by closures) that holds it.
+func SliceAliases(slice ssa.Value) []ssa.Value {
+	out := []ssa.Value{slice}
+	refs := slice.Referrers()
+	if refs == nil {
+		return out
+	}
+	for _, in := range *refs {
+		st, ok := in.(*ssa.Store)
+		if !ok || st.Val != slice {
+			continue
+		}
+		a, ok := st.Addr.(*ssa.Alloc)
+		if !ok || singleStore(a) == nil {
+			continue
+		}
+		visitAllocUses(a, func(u ssa.Instruction, self ssa.Value) {
+			if ld, ok := u.(*ssa.UnOp); ok && ld.Op == token.MUL && ld.X == self {
+				out = append(out, ld)
+			}
+		})
+	}
+	return out
 }
 
 // SendsOn lists the Send instructions on channels created at mk, in fn and its closures.
